@@ -5,6 +5,7 @@ package main
 import (
 	"bytes"
 	"fmt"
+	"math/rand"
 	"strconv"
 	"strings"
 	"time"
@@ -15,14 +16,16 @@ import (
 )
 
 type dshadow struct {
-	kind byte // 'b' one request per apply event, 'e' other engine, 'r' isReplaying=true, 'p' one packed entry per event
-	n    *dnode
+	kind byte // 'b' one request per apply event, 'e' other engine, 'r' isReplaying=true, 'p' one packed entry per event,
+	// 's' restarts: a pebble store that is closed and reopened before some of the events
+	n   *dnode
+	rng *rand.Rand
 	// once a shadow has answered differently its state is different for good: the first difference is the finding,
 	// later ones are consequences and are not reported
 	diverged bool
 }
 
-var shadowClass = map[byte]string{'b': "batch-dependent", 'e': "engine-dependent", 'r': "replay-dependent", 'p': "packed-dependent"}
+var shadowClass = map[byte]string{'b': "batch-dependent", 'e': "engine-dependent", 'r': "replay-dependent", 'p': "packed-dependent", 's': "restart-dependent"}
 
 type dsession struct {
 	c          *Ctx
@@ -179,6 +182,8 @@ func openSession(c *Ctx, sid int, kv map[string]string) (*dsession, error) {
 				other = "mem"
 			}
 			n, err = openNode(other, pol)
+		case 's':
+			n, err = openNode("pebble", pol)
 		default:
 			continue
 		}
@@ -186,7 +191,7 @@ func openSession(c *Ctx, sid int, kv map[string]string) (*dsession, error) {
 			s.close()
 			return nil, err
 		}
-		s.shadows = append(s.shadows, &dshadow{kind: k, n: n})
+		s.shadows = append(s.shadows, &dshadow{kind: k, n: n, rng: rand.New(rand.NewSource(int64(sid)*7919 + int64(k)))})
 	}
 	if sb := s.shadow('b'); sb != nil {
 		s.scratch, err = openNode("mem", pol)
@@ -254,8 +259,8 @@ func singleKeyCmd(name string) bool {
 
 func (s *dsession) c10Pre(sb *dnode, p *dpend) c10pre {
 	var pre c10pre
-	if !singleKeyCmd(p.name) || len(p.args) < 2 {
-		return pre
+	if !singleKeyCmd(p.name) || len(p.args) < 2 || strings.HasPrefix(p.name, "pf") {
+		return pre // (HyperLogLog values carry no value header: the expiry monitor does not apply to them)
 	}
 	ck, ok := cutNS(p.args[1])
 	if !ok || bytes.IndexByte(ck, ':') <= 0 || len(ck) > 300 {
@@ -951,6 +956,21 @@ func newData(c *Ctx) func(string) string {
 				}
 			}
 			return open(kv)
+		}
+		if f[0] == "restart" {
+			// the restart shadow ('s': a pebble store) is closed and reopened here; the same log applied with a restart of
+			// the node in between must give the same replies and the same data. Only between apply events.
+			if s != nil && len(s.pend) == 0 {
+				if sh := s.shadowOf('s'); sh != nil && !sh.diverged {
+					if err := sh.n.restart(); err != nil {
+						s.viol("restart-dependent:reopen-failed", err.Error())
+						sh.diverged = true
+					} else {
+						c.Note("shadow-restart")
+					}
+				}
+			}
+			return "ok"
 		}
 		if f[0] == "end" {
 			if s != nil {
